@@ -265,6 +265,111 @@ pub fn apply_op(g: &mut Value, op: &MutOp) -> bool {
 }
 
 /// One rule-directed mutation proposal (typed by JSON key), as an explicit op.
+/// Member vocabulary of the field structs: for every `pub struct` in /repo/src/fields/*.rs its members as
+/// (name, type, optional). Read once, in sorted file order (no entropy involved).
+fn sub_vocab() -> &'static Vec<Vec<(String, String, bool)>> {
+    static V: std::sync::OnceLock<Vec<Vec<(String, String, bool)>>> = std::sync::OnceLock::new();
+    V.get_or_init(|| {
+        let mut out = vec![];
+        let dir = scen::repo_root().join("src").join("fields");
+        let mut files: Vec<_> = std::fs::read_dir(&dir).map(|rd| rd.flatten().map(|e| e.path()).collect()).unwrap_or_default();
+        files.sort();
+        for f in files {
+            let Ok(src) = std::fs::read_to_string(&f) else { continue };
+            let mut rest = src.as_str();
+            while let Some(p) = rest.find("pub struct ") {
+                let tail = &rest[p..];
+                let Some(open) = tail.find('{') else { break };
+                let Some(close) = tail[open..].find("\n}") else { break };
+                if tail[..open].contains(';') || tail[..open].contains('(') {
+                    rest = &tail[11..];
+                    continue;
+                }
+                let body = &tail[open + 1..open + close];
+                let mut members = vec![];
+                for line in body.lines() {
+                    let l = line.trim();
+                    if let Some(m) = l.strip_prefix("pub ") {
+                        if let Some((name, ty)) = m.split_once(':') {
+                            let ty = ty.trim().trim_end_matches(',').trim();
+                            let optional = ty.starts_with("Option<");
+                            let inner = ty.strip_prefix("Option<").and_then(|t| t.strip_suffix('>')).unwrap_or(ty);
+                            members.push((name.trim().to_string(), inner.to_string(), optional));
+                        }
+                    }
+                }
+                if members.iter().any(|m| m.2) {
+                    out.push(members);
+                }
+                rest = &tail[open + close..];
+            }
+        }
+        out
+    })
+}
+
+fn objects_of<'a>(v: &'a Value, path: Vec<String>, depth: usize, out: &mut Vec<(Vec<String>, &'a serde_json::Map<String, Value>)>) {
+    if depth > 5 {
+        return;
+    }
+    match v {
+        Value::Object(o) => {
+            out.push((path.clone(), o));
+            for (k, c) in o {
+                let mut p = path.clone();
+                p.push(k.clone());
+                objects_of(c, p, depth + 1, out);
+            }
+        }
+        Value::Array(a) => {
+            for (i, c) in a.iter().enumerate() {
+                let mut p = path.clone();
+                p.push(i.to_string());
+                objects_of(c, p, depth + 1, out);
+            }
+        }
+        _ => {}
+    }
+}
+
+/// An optional member the field struct declares but the draw does not carry, added with a value of its type
+/// (`is_negative: Option<bool>` of a rate, an optional code, an optional narrative): combinations of optional
+/// sub-components no shipped scenario has.
+fn propose_optional_member(g: &Value, r: &mut Sm) -> Option<MutOp> {
+    let mut objs = vec![];
+    objects_of(&g["fields"], vec!["fields".into()], 0, &mut objs);
+    let mut cands: Vec<(Vec<String>, String, String)> = vec![];
+    for (path, o) in &objs {
+        if path.len() < 2 || o.is_empty() {
+            continue;
+        }
+        for st in sub_vocab() {
+            if o.keys().all(|k| st.iter().any(|m| &m.0 == k)) && st.iter().all(|m| m.2 || o.contains_key(&m.0)) {
+                for m in st {
+                    if m.2 && !o.contains_key(&m.0) && !cands.iter().any(|c| c.0 == *path && c.1 == m.0) {
+                        cands.push((path.clone(), m.0.clone(), m.1.clone()));
+                    }
+                }
+            }
+        }
+    }
+    if cands.is_empty() {
+        return None;
+    }
+    let (path, key, ty) = cands[r.below(cands.len())].clone();
+    let value = match ty.as_str() {
+        "bool" => json!(r.chance(1, 2)),
+        "char" => json!(*r.pick(&["C", "D", "N", "R", "X"])),
+        "f64" => json!(*r.pick(&[0.0, 1.0, 0.00001, 100.5])),
+        "u8" | "u16" | "u32" | "u64" | "usize" | "i32" | "i64" => json!(*r.pick(&[0, 1, 99])),
+        "String" => json!(*r.pick(POOL)),
+        "Vec<String>" => json!([*r.pick(LINES)]),
+        "NaiveDate" => json!(*r.pick(&["2024-02-29", "2025-12-31", "2000-01-01"])),
+        _ => return None,
+    };
+    Some(MutOp::Put { path, key, value })
+}
+
 fn propose(g: &Value, donor: &Value, donor2: &Value, vocab: &[String], hot: &Option<Vec<String>>, r: &mut Sm) -> Option<MutOp> {
     let mut ls = vec![];
     leaves(&g["fields"], vec!["fields".into()], &mut ls);
@@ -280,7 +385,8 @@ fn propose(g: &Value, donor: &Value, donor2: &Value, vocab: &[String], hot: &Opt
             return Some(MutOp::DupN { path: h.clone(), times });
         }
     }
-    match r.below(18) {
+    match r.below(20) {
+        18 | 19 => propose_optional_member(g, r),
         16 | 17 => {
             // a list of coded elements (23E instruction codes and the like) replaced by 2–4 elements
             // with different codes from the pool: code-combination rules need several codes at once
